@@ -1,4 +1,5 @@
 import Eru.Store.ProofsStatus
+import Eru.Store.ProofsKV
 /-
 C25 — status reports are bound to live entities and expire.
 
@@ -147,5 +148,83 @@ theorem redis_node_status_partial (hist : List Ev) (h : EntityPresent hist) :
 
 example : EntityPresent [Ev.report 1 3 true, .tick 2, .report 1 0 false, .remove] := by
   simp [EntityPresent]
+
+
+/-! ### the clauses of the property, read off the specification -/
+
+/-- a report accepted now is visible for exactly `ttl` seconds (for ever when `ttl = 0`) -/
+theorem spec_visible_until (s : Spec) (v ttl d : Nat) (ex : Bool) (hacc : accepted ttl ex = true) :
+    (Spec.run s [.report v ttl ex, .tick d]).visible = if ttl = 0 ∨ d < ttl then some v else none := by
+  simp only [Spec.run, Spec.step, hacc, ↓reduceIte, Spec.visible]
+  by_cases h : ttl = 0 ∨ d < ttl
+  · have : ttl = 0 ∨ s.now + d < s.now + ttl := by omega
+    simp [h, this]
+  · have : ¬ (ttl = 0 ∨ s.now + d < s.now + ttl) := by omega
+    simp [h, this]
+
+/-- reporting again (same or different value) restarts the lifetime from the latest report -/
+theorem spec_rereport_extends (s : Spec) (v v' ttl d1 d2 : Nat) (hpos : 0 < ttl) :
+    (Spec.run s [.report v ttl true, .tick d1, .report v' ttl true, .tick d2]).visible
+      = if d2 < ttl then some v' else none := by
+  simp only [Spec.run, Spec.step, accepted, Bool.or_true, ↓reduceIte, Spec.visible]
+  have hne : ttl ≠ 0 := by omega
+  by_cases h : d2 < ttl
+  · simp [h]
+  · simp [h, hne]
+
+/-- a report with a positive TTL for a missing entity is rejected and changes nothing -/
+theorem spec_rejects_dead_entity (s : Spec) (v ttl : Nat) (hpos : 0 < ttl) :
+    s.accepts (.report v ttl false) = false ∧ s.step (.report v ttl false) = s := by
+  have : ttl ≠ 0 := by omega
+  simp [Spec.accepts, Spec.step, accepted, this]
+
+/-- removal ends the visibility whatever was reported before -/
+theorem spec_removal_ends (s : Spec) (d : Nat) : (Spec.run s [.remove, .tick d]).visible = none := by
+  simp [Spec.run, Spec.step, Spec.visible]
+
+/-! ### the reference store follows the same rule -/
+
+theorem get_filter_none (m : KV) (k : Key) (p : Key × Ent → Bool) (h : KV.get m k = none) :
+    KV.get (m.filter p) k = none := by
+  induction m with
+  | nil => rfl
+  | cons q t ih =>
+    obtain ⟨k2, e2⟩ := q
+    simp only [KV.get] at h
+    by_cases hk : k2 = k
+    · simp [hk] at h
+    · simp only [hk, ↓reduceIte] at h
+      simp only [List.filter_cons]
+      split
+      · simp only [KV.get, hk, ↓reduceIte]; exact ih h
+      · exact ih h
+
+/-- **ref_status_lifetime**: on the reference store a status bound with TTL `ttl > 0` to an
+    existing entity is present after `d` more seconds iff `d < ttl`; bound with TTL 0 it is
+    present after any `d`; for a missing entity (TTL > 0) the bind fails. -/
+theorem ref_status_lifetime (s : St) (check : Bool) (ek sk : Key) (v : Val) (ttl d : Nat)
+    (hent : s.kv.has ek = true) :
+    ∃ s', bindStatus s check ek sk v ttl = .ok s' ∧
+      (tick s' d).kv.has sk = decide (ttl = 0 ∨ d < ttl) := by
+  unfold bindStatus
+  by_cases h0 : ttl = 0
+  · subst h0
+    refine ⟨_, rfl, ?_⟩
+    simp [tick, KV.put, KV.has, KV.get]
+  · simp only [h0, ↓reduceIte, hent, Bool.not_true, Bool.and_false, Bool.false_eq_true]
+    refine ⟨_, rfl, ?_⟩
+    simp only [tick, KV.put, List.filter_cons, KV.has]
+    by_cases hd : d < ttl
+    · have : s.now + d < s.now + ttl := by omega
+      simp [this, hd, KV.get]
+    · have : ¬ (s.now + d < s.now + ttl) := by omega
+      simp only [this, decide_false, Bool.false_eq_true, ↓reduceIte, h0, hd, or_self]
+      rw [get_filter_none _ _ _ (KV.get_erase_same _ _)]
+      rfl
+
+theorem ref_status_needs_entity (s : St) (ek sk : Key) (v : Val) (ttl : Nat) (hpos : 0 < ttl)
+    (hent : s.kv.has ek = false) : bindStatus s true ek sk v ttl = .error .notFound := by
+  have : ttl ≠ 0 := by omega
+  simp [bindStatus, this, hent]
 
 end Eru.Props.C25
